@@ -11,7 +11,8 @@ spec -> code   GenGridRefine: all 279 finished runs with the outcome and the ref
         included): AssertionError exactly where the specification rejects, otherwise the same set of origins (no duplicate, none
         missing, to 1e-12), factor 1 handing back its argument; and the refined origins built into a real CartesianGrid2D of
         spacing dh / factor must locate the midpoint of every fine cell in a cell of its own (a bijection) and a point of an
-        absent parent cell nowhere.
+        absent parent cell nowhere.  The same laws are then read off the built-in regions that call the routine (dh_scale 2, thorough
+        also 4, on the regions whose template loads): 4 (16) fine cells in every parent cell, each holding its own midpoint.
 """
 import random
 
@@ -105,8 +106,45 @@ def run(chk, replay=None):
                 return {'why': 'a point of an absent parent cell was located', 'cell': (i, j), 'got': repr(o)}
         return None
 
+    # ---- the same laws on the built-in regions that go through the routine (dh_scale): Tiling and CountLaw on production grids
+    def check_builtin(name, scale):
+        fn = getattr(regions, name, None)
+        if fn is None:
+            return 'skip'
+        base = guarded(fn)
+        if isinstance(base, Raised):
+            return 'skip'          # the template file of this region is not readable in this tree: nothing to refine
+        fine = guarded(fn, dh_scale=scale)
+        chk.count()
+        if isinstance(fine, Raised):
+            return {'why': 'built-in region with dh_scale raised', 'err': repr(fine)}
+        if fine.num_nodes != base.num_nodes * scale * scale:
+            return {'why': 'cells of the refined built-in region', 'got': int(fine.num_nodes), 'expected': int(base.num_nodes * scale * scale)}
+        if abs(fine.dh - base.dh / scale) > 1e-12:
+            return {'why': 'spacing of the refined built-in region', 'got': float(fine.dh), 'expected': float(base.dh / scale)}
+        fo = fine.origins()
+        mids = fo + fine.dh / 2.0
+        own = guarded(fine.get_index_of, mids[:, 0], mids[:, 1])
+        if isinstance(own, Raised) or not numpy.array_equal(numpy.asarray(own), numpy.arange(fine.num_nodes)):
+            return {'why': 'a fine cell of the built-in region does not hold its own midpoint', 'got': repr(own)[:120]}
+        par = guarded(base.get_index_of, mids[:, 0], mids[:, 1])
+        chk.count()
+        if isinstance(par, Raised):
+            return {'why': 'a fine cell of the built-in region lies outside every parent cell', 'err': repr(par)}
+        per = numpy.bincount(numpy.asarray(par), minlength=base.num_nodes)
+        if not (per == scale * scale).all():
+            k = int(numpy.argmax(per != scale * scale))
+            return {'why': 'fine cells per parent cell', 'parent': base.origins()[k].tolist(), 'got': int(per[k]), 'expected': scale * scale}
+        return None
+
     if replay:
         d = replay['detail']
+        if 'region' in d:
+            bad = check_builtin(d['region'], d['scale'])
+            if bad and bad != 'skip':
+                chk.violation(replay['signature'], dict(d, mismatch=bad))
+            chk.sample({'replayed': d['region'], 'scale': d['scale']})
+            return
         bad = check_case(d['case'], tuple(d['anchor']))
         if bad:
             chk.violation(replay['signature'], dict(d, mismatch=bad))
@@ -129,6 +167,22 @@ def run(chk, replay=None):
         if ci in (40, 200):
             chk.sample({'case': {k: v for k, v in case.items() if k != 'pts'}, 'origins': len(case['pts'])})
     chk.traces += ok
+
+    builtins = ['nz_csep_region', 'california_relm_collection_region', 'italy_csep_collection_region', 'nz_csep_collection_region',
+                'california_relm_region', 'italy_csep_region']
+    done = 0
+    for name in (builtins[:2] if quick else builtins):
+        for scale in ((2,) if quick else (2, 4)):
+            bad = check_builtin(name, scale)
+            if bad == 'skip':
+                continue
+            if bad:
+                chk.violation('refine-builtin:%s' % bad['why'], {'region': name, 'scale': scale, 'mismatch': bad})
+            else:
+                done += 1
+                chk.traces += 1
+    if done:
+        chk.nontrivial('built-in regions refined: %d' % done)
     ctl = next(c for c in cases if c['f0'] == 4 and len(c['parents']) == 2)
     chk.control('gen: a lost origin flagged', check_case(ctl, ANCHORS[0], mutate=lambda o: o[:-1]) is not None)
     chk.control('gen: a displaced origin flagged',
